@@ -3280,14 +3280,29 @@ impl Translator {
         let accessed_ty = self.get_ty(mono, accessed.node()).unwrap();
 
         match accessed_ty {
-            Type::Nominal(Nominal::Struct(struct_def), _) => {
+            Type::Nominal(Nominal::Struct(struct_def), ty_args) => {
                 let mut index = 0;
                 // TODO duplicated logic
                 for field in &*struct_def.fields {
                     if field.name.v == field_name {
                         return index as u16;
                     }
-                    let field_ty = field.ty.to_solved_type(statics).unwrap();
+                    // void fields occupy no slot; a field declared with a type parameter is
+                    // void when this instance of the struct binds the parameter to void
+                    let field_ty = match field.ty.to_solved_type(statics).unwrap() {
+                        Type::Poly(decl) => struct_def
+                            .ty_args
+                            .iter()
+                            .position(|ty_arg| {
+                                matches!(
+                                    statics.resolution_map.get(&ty_arg.name.id),
+                                    Some(Declaration::Polytype(d)) if *d == decl
+                                )
+                            })
+                            .and_then(|i| ty_args.get(i).cloned())
+                            .unwrap_or(Type::Poly(decl)),
+                        ty => ty,
+                    };
                     if field_ty != SolvedType::Void {
                         index += 1;
                     }
